@@ -104,6 +104,36 @@ func (fc *FCtx) evalCall(e *ast.CallExpr, st *State) []Val {
 	}
 	key := funcKey(fn)
 	sig := fn.Type().(*types.Signature)
+	// call of a generic function: the signature instantiated at this call site (contracts of generic functions are
+	// written over the type parameters and evaluated per instantiation)
+	if sig.TypeParams().Len() > 0 {
+		var id *ast.Ident
+		switch f := unparen(e.Fun).(type) {
+		case *ast.Ident:
+			id = f
+		case *ast.SelectorExpr:
+			id = f.Sel
+		case *ast.IndexExpr:
+			if x, ok := f.X.(*ast.Ident); ok {
+				id = x
+			}
+		}
+		if id != nil {
+			if inst, ok := info.Instances[id]; ok {
+				if isg, ok := inst.Type.(*types.Signature); ok {
+					tps := sig.TypeParams()
+					sig = isg
+					// the type parameters' names denote the type arguments while the callee's contract is evaluated
+					saved := fc.typeArgs
+					fc.typeArgs = map[string]types.Type{}
+					for i := 0; i < tps.Len() && i < inst.TypeArgs.Len(); i++ {
+						fc.typeArgs[tps.At(i).Obj().Name()] = inst.TypeArgs.At(i)
+					}
+					defer func() { fc.typeArgs = saved }()
+				}
+			}
+		}
+	}
 	// declared key function
 	if c := fc.E.cs.Funcs[key]; c != nil && c.Flags["keyfn"] != "" {
 		var args []Val
@@ -135,7 +165,16 @@ func (fc *FCtx) evalCall(e *ast.CallExpr, st *State) []Val {
 	}
 	// contract call
 	if c := fc.E.cs.Funcs[key]; c != nil && c.Flags["inline"] == "" {
-		return fc.callByContract(c, fn, sig, e, recvExpr, st)
+		res := fc.callByContract(c, fn, sig, e, recvExpr, st)
+		if len(fc.frames) == 1 && fc.C != nil && fc.C.Flags["forwards"] != "" && fn.Name() == fc.C.Flags["forwards"] {
+			if g, ok := st.ghost["fwd@count"]; ok {
+				st.ghost["fwd@count"] = Val{T: fmt.Sprintf("(+ %s 1)", g.T), S: SInt}
+				for i, v := range res {
+					st.ghost[fmt.Sprintf("fwd@r%d", i)] = v
+				}
+			}
+		}
+		return res
 	}
 	if c := fc.E.externFor(fn); c != nil {
 		return fc.callByContract(c, fn, sig, e, recvExpr, st)
@@ -174,7 +213,7 @@ var pureExternPrefixes = []string{
 	"(github.com/cosmos/cosmos-sdk/types.Coins).", "(github.com/cosmos/cosmos-sdk/types.DecCoins).", "(github.com/cosmos/cosmos-sdk/types.Coin).", "(github.com/cosmos/cosmos-sdk/types.DecCoin).",
 	"github.com/cosmos/cosmos-sdk/types.NewCoins", "github.com/cosmos/cosmos-sdk/types.NewCoin", "github.com/cosmos/cosmos-sdk/types.NewDecCoinsFromCoins", "github.com/cosmos/cosmos-sdk/types.NewDecCoins",
 	"github.com/cosmos/cosmos-sdk/types/address.Module",
-	"cosmossdk.io/errors.ABCIInfo", "cosmossdk.io/math.LegacyNewDecFromStr", "(cosmossdk.io/math.LegacyDec).Mul", "(cosmossdk.io/math.LegacyDec).Quo", "(cosmossdk.io/math.LegacyDec).RoundInt", "(cosmossdk.io/math.LegacyDec).String", "strings.", "bytes.", "encoding/hex.", "strconv.", "crypto/sha256.Sum256", "github.com/cosmos/cosmos-sdk/types/address.MustLengthPrefix",
+	"cosmossdk.io/errors.ABCIInfo", "cosmossdk.io/math.LegacyNewDecFromStr", "(cosmossdk.io/math.LegacyDec).Mul", "(cosmossdk.io/math.LegacyDec).Quo", "(cosmossdk.io/math.LegacyDec).RoundInt", "(cosmossdk.io/math.LegacyDec).String", "strings.", "bytes.", "encoding/hex.", "strconv.", "math.", "math/bits.", "crypto/sha256.Sum256", "github.com/cosmos/cosmos-sdk/types/address.MustLengthPrefix",
 	"(github.com/cosmos/cosmos-sdk/types.AccAddress).Bytes", "(github.com/cosmos/cosmos-sdk/types.ValAddress).Bytes",
 	"github.com/cosmos/cosmos-sdk/x/auth/types.NewModuleAddress",
 	"(github.com/cosmos/cosmos-sdk/x/staking/types.ValidatorI).", "(github.com/cosmos/cosmos-sdk/types.ModuleAccountI).", "(github.com/cosmos/cosmos-sdk/types.AccountI).", "(github.com/cosmos/cosmos-sdk/x/staking/types.Validator).",
@@ -365,6 +404,12 @@ func (fc *FCtx) convert(e *ast.CallExpr, to types.Type, st *State) Val {
 		r := Val{T: app(fn, x.T), S: ts, GoT: to}
 		if isBz(ts) {
 			st.assume(fmt.Sprintf("(and (= (bz_len %s) (str_len %s)) (not (= %s bz_nil)) (= (%s %s) %s))", r.T, x.T, r.T, inv, r.T, x.T))
+			// the bytes of a (short) string constant are known
+			if lit, ok := fc.U.strLitContent(x.T); ok && len(lit) <= 64 {
+				for i := 0; i < len(lit); i++ {
+					st.assume(fmt.Sprintf("(= (bz_at %s %d) %d)", r.T, i, lit[i]))
+				}
+			}
 		} else {
 			st.assume(fmt.Sprintf("(and (= (str_len %s) (bz_len %s)) (=> (not (= %s bz_nil)) (= (%s %s) %s)))", r.T, x.T, x.T, inv, r.T, x.T))
 		}
@@ -517,7 +562,7 @@ func (fc *FCtx) evalBuiltin(name string, e *ast.CallExpr, st *State) []Val {
 		}
 		return []Val{v}
 	case "copy":
-		oos("copy")
+		return []Val{fc.evalCopy(e, st)}
 	}
 	oos("builtin %s", name)
 	return nil
@@ -766,6 +811,13 @@ func (fc *FCtx) callByContract(c *FuncContract, fn *types.Func, sig *types.Signa
 	for i, r := range c.Requires {
 		env := &Env{fc: fc, st: st, old: pre, names: names, pkg: fc.E.pkgOfContract(c), gsuf: gsuf}
 		t := fc.specBool(r.Expr, env)
+		if len(fc.frames) == 1 && fc.C != nil && fc.C.Flags["forwards"] != "" && fn.Name() == fc.C.Flags["forwards"] {
+			// a `forwards` wrapper inherits the precondition of the function it forwards to (it is that function's
+			// entry point for the SDK; the precondition is about the state at that moment)
+			fc.assumed["precondition of "+c.Key+" inherited by its forwarding wrapper "+fc.FI.Key] = true
+			st.assume(t)
+			continue
+		}
 		fc.oblige(st, "call-pre@"+shortKey(c.Key), t, fmt.Sprintf("requires[%d] of %s: %s", i, c.Key, r.Src), e.Pos())
 		// once it has been shown (its own obligation) the precondition is a fact on this path
 		st.assume(t)
@@ -1159,6 +1211,7 @@ var extAliases = map[string]struct {
 	"merkle.HashFromByteSlices":           {"github.com/cometbft/cometbft/crypto/merkle.HashFromByteSlices", "Bz"},
 	"ValidatorI.GetTokens":                {"(github.com/cosmos/cosmos-sdk/x/staking/types.ValidatorI).GetTokens", "Int"},
 	"ValidatorI.GetOperator":              {"(github.com/cosmos/cosmos-sdk/x/staking/types.ValidatorI).GetOperator", "Str"},
+	"NewModuleAddress":                    {"github.com/cosmos/cosmos-sdk/x/auth/types.NewModuleAddress", "Addr"},
 }
 
 // mapCard declares the cardinality function of a map sort with the point-update axioms (mathematics of
@@ -1235,12 +1288,43 @@ func (fc *FCtx) callUnknownFuncValue(e *ast.CallExpr, st *State) ([]Val, bool) {
 	default:
 		return nil, false
 	}
+	if len(fc.frames) == 1 && fc.C != nil && fc.C.Flags["pure_funcvalues"] != "" {
+		// `//@ pure_funcvalues`: the function values this function is given are pure (key selectors, comparators): a call
+		// through one is an application of an uninterpreted function of the function value and the arguments, without
+		// effect on any state. Assumed about the callers' arguments (listed).
+		fv := fc.eval(unparen(e.Fun), st)
+		ts := []string{fv.T}
+		sorts := []*Sort{fv.S}
+		for _, a := range e.Args {
+			v := fc.eval(a, st)
+			ts = append(ts, v.T)
+			sorts = append(sorts, v.S)
+		}
+		fc.assumed["function values passed to "+fc.FI.Key+" are pure (no side effects, deterministic)"] = true
+		var res []Val
+		for i := 0; i < sig.Results().Len(); i++ {
+			rt := sig.Results().At(i).Type()
+			s := fc.U.SortOf(rt)
+			fname := extFnName("fvapply", sorts, i) + "_" + sanitize(s.Name)
+			fc.U.Fun(fname, sorts, s)
+			v := Val{T: app(fname, ts...), S: s, GoT: rt}
+			st.assume(fc.U.WF(v))
+			res = append(res, v)
+		}
+		return res, true
+	}
 	for _, a := range e.Args {
 		fc.eval(a, st)
 	}
-	for _, g := range fc.ghostNames(st) {
-		gv := st.ghost[g]
-		st.ghost[g] = Val{T: fc.U.Fresh("g_"+g, gv.S), S: gv.S, GoT: gv.GoT}
+	if len(fc.frames) == 1 && fc.C != nil && fc.C.Flags["readonly_funcvalues"] != "" {
+		// `//@ readonly_funcvalues`: the function values called here (handlers looked up in a router) may read any
+		// state but write none: arbitrary results, no effect on the ghosts. Assumed (listed).
+		fc.assumed["function values called by "+fc.FI.Key+" ("+fc.calleeName(e)+") do not write state; assumed not to panic"] = true
+	} else {
+		for _, g := range fc.ghostNames(st) {
+			gv := st.ghost[g]
+			st.ghost[g] = Val{T: fc.U.Fresh("g_"+g, gv.S), S: gv.S, GoT: gv.GoT}
+		}
 	}
 	fc.assumed["call through a function value ("+fc.calleeName(e)+"): arbitrary effect on every ghost, arbitrary results, assumed not to panic"] = true
 	var res []Val
@@ -1252,4 +1336,90 @@ func (fc *FCtx) callUnknownFuncValue(e *ast.CallExpr, st *State) ([]Val, bool) {
 		res = append(res, v)
 	}
 	return res, true
+}
+
+// evalCopy: copy(dst, src) where dst is an assignable variable (array, slice or byte slice) or a slice expression
+// x[lo:hi] of one. Slices are values in this model, so the copy is an update of the variable x: elements
+// lo .. lo+n-1 become src[0..n-1], n = min(len(dst), len(src)); everything else is unchanged.
+func (fc *FCtx) evalCopy(e *ast.CallExpr, st *State) Val {
+	dst := unparen(e.Args[0])
+	var baseExpr ast.Expr = dst
+	lo, hiE := "0", ast.Expr(nil)
+	if se, ok := dst.(*ast.SliceExpr); ok {
+		if se.Slice3 {
+			oos("copy into a 3-index slice")
+		}
+		baseExpr = unparen(se.X)
+		if se.Low != nil {
+			lo = fc.eval(se.Low, st).T
+		}
+		hiE = se.High
+	}
+	switch baseExpr.(type) {
+	case *ast.Ident, *ast.SelectorExpr, *ast.IndexExpr:
+	default:
+		oos("copy into %T", baseExpr)
+	}
+	base := fc.eval(baseExpr, st)
+	var blen, bcap string
+	switch {
+	case base.S.Kind == KSlice:
+		blen, bcap = slLen(base), slCap(base)
+	case isBz(base.S):
+		blen, bcap = app("bz_len", base.T), app("bz_cap", base.T)
+	default:
+		oos("copy into %s", base.S.Name)
+	}
+	hi := blen
+	if hiE != nil {
+		hi = fc.eval(hiE, st).T
+	}
+	t := fc.info().TypeOf(baseExpr)
+	_, isArr := t.Underlying().(*types.Array)
+	bound := bcap
+	if isArr {
+		bound = blen
+	}
+	if _, ok := dst.(*ast.SliceExpr); ok {
+		fc.panicCheck(st, "slice-bounds", fmt.Sprintf("(and (<= 0 %s) (<= %s %s) (<= %s %s))", lo, lo, hi, hi, bound), e.Pos())
+	}
+	src := fc.eval(e.Args[1], st)
+	var slen string
+	var sat func(j string) string
+	switch {
+	case src.S.Kind == KSlice:
+		slen = slLen(src)
+		sat = func(j string) string { return fmt.Sprintf("(select %s %s)", slEl(src), j) }
+	case isBz(src.S):
+		slen = app("bz_len", src.T)
+		sat = func(j string) string { return fmt.Sprintf("(bz_at %s %s)", src.T, j) }
+	case src.S.Kind == KStr:
+		bzs := fc.U.BzSort()
+		fc.U.Fun("conv_Str_Bz", []*Sort{SStr}, bzs)
+		fc.U.Fun("conv_Bz_Str", []*Sort{bzs}, SStr)
+		bz := app("conv_Str_Bz", src.T)
+		st.assume(fmt.Sprintf("(and (= (bz_len %s) (str_len %s)) (not (= %s bz_nil)) (= (conv_Bz_Str %s) %s))", bz, src.T, bz, bz, src.T))
+		slen = app("bz_len", bz)
+		sat = func(j string) string { return fmt.Sprintf("(bz_at %s %s)", bz, j) }
+	default:
+		oos("copy from %s", src.S.Name)
+	}
+	n := fc.U.Fresh("cpn", SInt)
+	st.assume(fmt.Sprintf("(= %s (imin (- %s %s) %s))", n, hi, lo, slen))
+	fc.U.fresh++
+	jv := fmt.Sprintf("cj%d", fc.U.fresh)
+	inR := fmt.Sprintf("(and (<= %s %s) (< %s (+ %s %s)))", lo, jv, jv, lo, n)
+	var nb Val
+	if base.S.Kind == KSlice {
+		arr := fc.U.Fresh("cp", &Sort{Name: fmt.Sprintf("(Array Int %s)", base.S.Elem.Name)})
+		st.assume(fmt.Sprintf("(forall ((%s Int)) (! (= (select %s %s) (ite %s %s (select %s %s))) :pattern ((select %s %s))))", jv, arr, jv, inR, sat(fmt.Sprintf("(- %s %s)", jv, lo)), slEl(base), jv, arr, jv))
+		nb = Val{T: mkSlice(base.S, blen, bcap, arr), S: base.S, GoT: base.GoT}
+	} else {
+		b := fc.U.Fresh("cpb", base.S)
+		st.assume(fmt.Sprintf("(and (= (bz_len %s) %s) (= (bz_cap %s) %s) (= (= %s bz_nil) (= %s bz_nil)))", b, blen, b, bcap, b, base.T))
+		st.assume(fmt.Sprintf("(forall ((%s Int)) (! (= (bz_at %s %s) (ite %s %s (bz_at %s %s))) :pattern ((bz_at %s %s))))", jv, b, jv, inR, sat(fmt.Sprintf("(- %s %s)", jv, lo)), base.T, jv, b, jv))
+		nb = Val{T: b, S: base.S, GoT: base.GoT}
+	}
+	fc.assignTo(baseExpr, nb, st)
+	return Val{T: n, S: SInt, GoT: types.Typ[types.Int]}
 }
